@@ -122,6 +122,12 @@ def validate_design(instance: dict) -> int:
     )
 
 
+def validate_loads(instance: dict) -> int:
+    return validate_schema_instance(
+        schema_file_name="loads.schema.json", instance=instance, error_msg="Errors in \"loads\" input object."
+    )
+
+
 def validate_input_file(input_file_path: Path) -> int:
     """
     Validate input file against all schemas
@@ -141,6 +147,7 @@ def validate_input_file(input_file_path: Path) -> int:
     err_count += validate_simulation(instance["simulation"])
     err_count += validate_geometric(instance["geometric_constraints"])
     err_count += validate_design(instance["design"])
+    err_count += validate_loads(instance["loads"])
     return err_count
 
 
